@@ -1,3 +1,146 @@
-//! C12, real-binary family (Swift folder mode: Codable.swift) — filled in once the CLI runner exists.
+//! C12, real-binary family: multi-file Swift — `CodableVoid` used in any generated file must be defined in that file or in
+//! the shared Codable.swift of the output folder.
+use crate::cli;
 use crate::common::*;
-pub fn run_cli_family(_run: &Run) {}
+use crate::model::*;
+use crate::ts::{Cfg, Lang};
+use crate::ws::{self, Workspace};
+use proptest::prelude::*;
+use serde::{Deserialize, Serialize};
+use serde_json::json;
+use std::time::Duration;
+
+#[derive(Clone, Debug, Serialize, Deserialize)]
+pub struct Case {
+    pub ws: Workspace,
+    /// which files get a `()`-using item
+    pub unit_in: Vec<bool>,
+    /// a stale Codable.swift from an earlier run is present
+    pub stale_codable: bool,
+    pub position: u8,
+}
+
+fn unit_item(k: usize, position: u8) -> Item {
+    let unit = Ty::Prim(Prim::Unit);
+    let ty = match position % 5 {
+        0 => unit,
+        1 => Ty::Vec(Box::new(unit)),
+        2 => Ty::Opt(Box::new(Ty::Map(Box::new(Ty::Prim(Prim::String)), Box::new(unit)))),
+        3 => Ty::Array(Box::new(Ty::Vec(Box::new(unit))), 2),
+        _ => Ty::Wrap(Wrapper::Box, Box::new(unit)),
+    };
+    match position % 3 {
+        0 => Item::new(&format!("UsesUnit{k}"), Kind::Struct { shape: Shape::Named(vec![Field::new("nothing", ty)]), rename_all: None }),
+        1 => Item::new(&format!("UsesUnit{k}"), Kind::Alias { ty }),
+        _ => {
+            let mut v = Variant::unit("Empty");
+            v.payload = Payload::Newtype(ty);
+            Item::new(&format!("UsesUnit{k}"), Kind::Enum { variants: vec![v, Variant::unit("Other")], rename_all: None, tag: Some("t".into()), content: Some("c".into()) })
+        }
+    }
+}
+
+pub struct C12Cli;
+impl SubCheck for C12Cli {
+    type Case = Case;
+    fn name(&self) -> &'static str {
+        "c12-cli-swift"
+    }
+    fn strategy(&self, _tier: Tier) -> BoxedStrategy<Case> {
+        (ws::cli_items(2, 6), ws::slots(2..=4, 2..=5), proptest::collection::vec(0usize..5, 8), proptest::collection::vec(prop_oneof![2 => Just(false), 1 => Just(true)], 5), any::<bool>(), any::<u8>())
+            .prop_map(|(items, slots, assign, unit_in, stale_codable, position)| {
+                let items: Vec<Item> = items.into_iter().filter(|i| !matches!(i.kind, Kind::Const { .. })).collect();
+                Case { ws: ws::distribute(items, &slots, &assign), unit_in, stale_codable, position }
+            })
+            .boxed()
+    }
+    fn eval(&self, run: &Run, c: &Case, w: &mut Worker, counting: bool) -> Vec<Violation> {
+        let mut out = vec![];
+        let mut wsx = c.ws.clone();
+        // no `()` from the random items: only the planted ones
+        for f in wsx.files.iter_mut() {
+            f.items.retain(|i| {
+                let mut has_unit = false;
+                crate::c01_05::for_all_types(std::slice::from_ref(i), &mut |t| {
+                    if t.contains(&|x| matches!(x, Ty::Prim(Prim::Unit))) {
+                        has_unit = true;
+                    }
+                });
+                !has_unit
+            });
+        }
+        for (k, f) in wsx.files.iter_mut().enumerate() {
+            if c.unit_in.get(k).copied().unwrap_or(false) {
+                f.items.push(unit_item(k, c.position.wrapping_add(k as u8)));
+            }
+        }
+        wsx.files.retain(|f| !f.items.is_empty());
+        if wsx.files.is_empty() {
+            return out;
+        }
+        let root = cli::fresh_dir(&w.scratch, "c12");
+        let tree = root.join("tree");
+        cli::write_tree(&tree, &wsx.tree());
+        let outd = root.join("out");
+        std::fs::create_dir_all(&outd).unwrap();
+        if c.stale_codable {
+            std::fs::write(outd.join("Codable.swift"), "// stale\n").unwrap();
+        }
+        let cfg = Cfg::plain();
+        let mut args = cli::lang_args(Lang::Swift, &cfg);
+        args.extend(["-d".into(), outd.to_string_lossy().into_owned(), tree.to_string_lossy().into_owned()]);
+        let r = cli::run(&args, &root, &[], Duration::from_secs(20));
+        let crates_with_unit: Vec<String> = wsx.files.iter().filter(|f| f.items.iter().any(|i| i.name.starts_with("UsesUnit"))).map(|f| Workspace::crate_name_of(&f.crate_dir)).collect();
+        let all_crates = wsx.crates();
+        let last_crate = all_crates.iter().map(|c| Workspace::crate_name_of(c)).max().unwrap_or_default();
+        let only_non_last = !crates_with_unit.is_empty() && !crates_with_unit.contains(&last_crate);
+        if counting {
+            run.label(&format!("c12cli/unit-crates={}/{}", crates_with_unit.len().min(3), if only_non_last { "not-in-last-crate" } else { "any" }));
+            if all_crates.len() >= 2 && !crates_with_unit.is_empty() {
+                run.nontrivial(hash_of(&(serde_json::to_string(&wsx).unwrap_or_default(), c.stale_codable)));
+            }
+        }
+        if !r.ok() {
+            if counting {
+                run.label(&format!("c12cli/not-generated/exit={:?}", r.code));
+            }
+            let _ = std::fs::remove_dir_all(&root);
+            return out;
+        }
+        let files = cli::read_tree(&outd);
+        let shared = files.iter().find(|(n, _)| n == "Codable.swift").map(|(_, b)| String::from_utf8_lossy(b).into_owned()).unwrap_or_default();
+        let shared_defines = shared.contains("struct CodableVoid");
+        for (name, bytes) in &files {
+            if name == "Codable.swift" {
+                continue;
+            }
+            let text = String::from_utf8_lossy(bytes);
+            let uses = text.contains("CodableVoid");
+            let defines_here = text.contains("struct CodableVoid");
+            if uses && !defines_here && !shared_defines {
+                out.push(Violation::new(
+                    format!("swift-folder/CodableVoid-undefined/{}{}", if only_non_last { "unit-only-in-non-last-crate" } else { "other" }, if c.stale_codable { "/stale-Codable.swift-present" } else { "" }),
+                    format!("swift folder mode: `{name}` uses CodableVoid but neither it nor Codable.swift defines it (files: {:?})", files.iter().map(|x| &x.0).collect::<Vec<_>>()),
+                ));
+            }
+        }
+        let _ = std::fs::remove_dir_all(&root);
+        out
+    }
+    fn render(&self, c: &Case) -> serde_json::Value {
+        json!({"unit_in": c.unit_in, "stale_codable": c.stale_codable, "files": c.ws.tree().iter().map(|(p, t)| json!({"path": p, "content": String::from_utf8_lossy(t)})).collect::<Vec<_>>()})
+    }
+}
+
+pub fn run_cli_family(run: &Run) {
+    if !cli::bin_available() {
+        run.inconclusive("typeshare binary not built");
+        return;
+    }
+    replay_regress(run, &C12Cli);
+    search(run, &C12Cli, run.tier.pick(300, 3000));
+}
+
+pub fn replay(run: &Run, case: &serde_json::Value) -> Result<Vec<Violation>, String> {
+    replay_case(run, &C12Cli, case)
+}
